@@ -104,6 +104,27 @@ def install():
     hooks.install_h5()
 
 
+class _Spy(dict):
+    """A document that counts every access."""
+    touched = 0
+
+    def __getitem__(self, k):
+        self.touched += 1
+        return dict.__getitem__(self, k)
+
+    def __iter__(self):
+        self.touched += 1
+        return dict.__iter__(self)
+
+    def items(self):
+        self.touched += 1
+        return dict.items(self)
+
+    def values(self):
+        self.touched += 1
+        return dict.values(self)
+
+
 def compile_case(ctx, env, text, expect_ok, cls, label, ast=None):
     """One compile; verdict against the expectation; evaluate counter must not move."""
     ctx.evaluation()
@@ -130,6 +151,21 @@ def compile_case(ctx, env, text, expect_ok, cls, label, ast=None):
         else:
             ctx.count("rejected_as_expected")
             ctx.cell("rejected_with", type(out.exc).__name__)
+            if ctx.rng.random() < 0.15:
+                # the entry points that take query text must refuse it in the call that receives it (a lazy result that
+                # is never advanced would otherwise never refuse), without touching the document
+                spy = _Spy({"a": [1, {"b": 2}], "b": "x"})
+                before = hooks.STATE.evaluate_calls
+                for ename, fn in (("finditer", lambda: env.finditer(text, spy)), ("query", lambda: env.query(text, spy)), ("findall", lambda: env.findall(text, spy)), ("match", lambda: env.match(text, spy)),
+                                  ("query().limit(0).values()", lambda: list(env.query(text, spy).limit(0).values()))):
+                    o = impl.call(fn)
+                    ctx.count("entry_point_refusals_checked")
+                    if o.ok or not isinstance(o.exc, jsonpath.JSONPathError):
+                        ctx.violation("ill-formed-query-not-refused-by-the-entry-point-that-received-it:%s" % ename.split("(")[0], case, {"text": text, "entry_point": ename, "outcome": "returned %s" % type(o.value).__name__ if o.ok else o.desc()})
+                        return
+                if spy.touched or hooks.STATE.evaluate_calls != before:
+                    ctx.violation("ill-formed-query-reached-the-document", case, {"text": text, "document_accesses": spy.touched})
+                    return
     if len(ctx.samples) < 3 or ctx.rng.random() < 0.0008:
         ctx.sample({"text": text, "expected": "compile" if expect_ok else "reject", "label": label, "outcome": out.desc()})
 
